@@ -667,6 +667,26 @@ func runHistory(ids []ID, ops []*op, class string) {
 					}
 				}
 			}
+			// (3c) inside a multi-device batch the well-formed hello of an unregistered device whose slot is free registers it
+			if o.kind == oTalk && o.p.kind == kMultiDev && answer == "reply" {
+				for _, sp := range o.p.subs {
+					_, reg := prev[sp.dev]
+					_, coll := collides(sp.dev)
+					if sp.dev.Empty() || reg || coll || sp.dev == top || sp.pid != c2.SvHello || sp.body != bHello {
+						continue
+					}
+					now := false
+					for _, e := range tbl {
+						if e.ID == sp.dev {
+							now = true
+						}
+					}
+					if !now {
+						fail("the hello of an unregistered device inside a multi-device batch did not register it", "multidev-hello-not-registered", caseDesc())
+						break
+					}
+				}
+			}
 			// (4) outbound packets are handed only to the connection that serves their device
 			for _, lf := range leafs {
 				if !idIn(lf.dev, named) && !u32In(lf.dev.Hash(), tags) {
@@ -1804,6 +1824,42 @@ func genOp(pool []ID) *op {
 	return &op{kind: oSessions}
 }
 
+// IDs that are equal under a shortened view but differ as 32-byte values:
+//   sameSuffix(d): other first 28 bytes, same last 4 (ID.String() prints only those when ID[28] != 0);
+//   sameMachine(d): d with ID[28] == 0 and a copy that differs in bytes 29..31 (String() then prints only the first 28);
+//   lookAlikes: pairs with the same last 4 bytes AND the same ID.Hash() (birthday search over the first 28 bytes).
+var lookAlikes [][2]ID
+
+func sameSuffix(d ID) ID {
+	e := randID()
+	copy(e[28:], d[28:]) // (if d[28] == 0 the two differ in the machine part and String() tells them apart: still a valid pool member)
+	return e
+}
+func sameMachine(d ID) (ID, ID) {
+	d[28] = 0
+	e := d
+	e[29+rng.Intn(3)] ^= byte(1 + rng.Intn(255))
+	return d, e
+}
+func findLookAlikes(want, maxDraws int) int {
+	var suf [4]byte
+	copy(suf[:], rng.Bytes(4))
+	suf[0] |= 1
+	seen := make(map[uint32]ID, maxDraws)
+	n := 0
+	for ; n < maxDraws && len(lookAlikes) < want; n++ {
+		d := randID()
+		copy(d[28:], suf[:])
+		h := d.Hash()
+		if o, ok := seen[h]; ok && o != d {
+			lookAlikes = append(lookAlikes, [2]ID{o, d})
+			continue
+		}
+		seen[h] = d
+	}
+	return n
+}
+
 func genPool(pairs [][2]ID) []ID {
 	var pool []ID
 	np := 0
@@ -1830,6 +1886,18 @@ func genPool(pairs [][2]ID) []ID {
 		d := pool[rng.Intn(len(pool))]
 		d[31] ^= byte(1 + rng.Intn(255))
 		pool = append(pool, d)
+	}
+	switch rng.Intn(6) { // IDs that look alike under String() / Hash()
+	case 0, 1:
+		pool = append(pool, sameSuffix(pool[rng.Intn(len(pool))]))
+	case 2:
+		a, b := sameMachine(randID())
+		pool = append(pool, a, b)
+	case 3:
+		if len(lookAlikes) > 0 {
+			pr := lookAlikes[rng.Intn(len(lookAlikes))]
+			pool = append(pool, pr[0], pr[1])
+		}
 	}
 	if rng.Intn(5) == 0 { // an empty ID
 		d := randID()
@@ -1879,6 +1947,13 @@ func main() {
 	}
 	out.Extra("colliding_pairs", ps)
 
+	t1 := time.Now()
+	ld := findLookAlikes(2, 2000000)
+	out.Extra("look_alike_search", map[string]interface{}{"pairs": len(lookAlikes), "draws": ld, "ms": time.Since(t1).Milliseconds()})
+	if len(lookAlikes) == 0 {
+		panic("no pair with equal String() and equal Hash() found")
+	}
+
 	// ---- hash and constants
 	out.Add(fmt.Sprintf("CConsts %d %d %d %d %d", c2.SvHello, c2.SvRegister, c2.SvComplete, task.MvRefresh, c2.SvShutdown), "consts", true, "SvHello SvRegister SvComplete MvRefresh SvShutdown")
 	var z, f ID
@@ -1921,6 +1996,34 @@ func main() {
 		{kind: oTalk, p: &pkt{kind: kSingle, top: lf(fb, 192, 18, bKey, 77)}}, hl(fb, 19), {kind: oLookup, d: fb}, {kind: oLookup, d: fa},
 		{kind: oTalk, p: &pkt{kind: kSingle, top: lf(fc, 0, 0, bEmpty, 0), tags: []uint32{fa.Hash()}}}, {kind: oRemove, d: fc},
 		{kind: oTalk, p: &pkt{kind: kSingle, top: lf(fc, 192, 20, bData, 0)}}}, "corpus")
+
+	// ---- look-alikes: a batch of host A carrying packets / the hello of a device that prints like A (same last 4 bytes; same
+	// machine part with ID[28] == 0; same last 4 bytes and same hash), directly, through talkSub, the proxy and a Channel tag
+	{
+		A := randID()
+		A[28] |= 1
+		S := sameSuffix(A)
+		M1, M2 := sameMachine(randID())
+		L1, L2 := lookAlikes[0][0], lookAlikes[0][1]
+		lf2 := func(d ID, pid uint8, body int) leaf { return leaf{dev: d, pid: pid, job: nextJob(), body: body} }
+		md := func(top ID, subs ...leaf) *op { return &op{kind: oTalk, p: &pkt{kind: kMultiDev, dev: top, job: nextJob(), subs: subs}} }
+		for _, pr := range [][2]ID{{A, S}, {M1, M2}, {L1, L2}} {
+			h, x := pr[0], pr[1]
+			if h.String() != x.String() || h == x {
+				panic("look-alike pair does not look alike")
+			}
+			runHistory([]ID{h, x}, []*op{hello(h), md(h, lf2(x, c2.RvResult, bData)), md(h, lf2(h, c2.RvResult, bData), lf2(x, c2.RvResult, bData)),
+				single(x, c2.RvResult, bData, 0), {kind: oTalkSub, n: lf2(x, c2.RvResult, bData)}, {kind: oLookup, d: x}, {kind: oSend, d: x, pid: 0xD0, job: nextJob()},
+				md(h, lf2(x, c2.SvHello, bHello), lf2(x, c2.RvResult, bData), lf2(h, c2.RvResult, bData)), {kind: oLookup, d: x}, single(x, c2.RvResult, bData, 0),
+				single(h, 0, bEmpty, 0, x.Hash()), {kind: oRemove, d: x}, md(x, lf2(h, c2.RvResult, bData)), {kind: oSessions}}, "corpus-lookalike")
+			runProxy([]ID{h, x}, []*pop{{kind: pTalk, n: lf2(h, c2.SvHello, bHello)}, {kind: pTalk, n: lf2(x, c2.RvResult, bData)}, {kind: pTalkSub, n: lf2(x, c2.RvResult, bData)},
+				{kind: pAccept, n: lf2(x, 0xD1, bData)}, {kind: pAccept, n: lf2(h, 0xD2, bData)}, {kind: pTalkSub, n: lf2(x, c2.SvHello, bHello)}, {kind: pAccept, n: lf2(x, 0xD3, bData)},
+				{kind: pTalk, n: lf2(x, c2.RvResult, bData)}, {kind: pTalk, n: lf2(h, c2.RvResult, bData)}, {kind: pTalkSub, n: lf2(x, c2.SvShutdown, bEmpty)}, {kind: pTalk, n: lf2(h, c2.RvResult, bData)}}, "corpus-proxy-lookalike")
+			runChan([]ID{h, x}, []*cop{{kind: cReg, d: h, job: nextJob()}, {kind: cReg, d: x, job: nextJob()}, {kind: cPoll, d: h}, {kind: cPoll, d: x}, {kind: cOpen, d: h},
+				{kind: cPkt, d: h, tags: []uint32{x.Hash()}}, {kind: cSend, d: x, pid: 0xD0, job: nextJob()}, {kind: cSend, d: h, pid: 0xD1, job: nextJob()}, {kind: cDrain, d: h},
+				{kind: cPkt, d: h}, {kind: cSend, d: x, pid: 0xD2, job: nextJob()}, {kind: cPoll, d: x}, {kind: cPkt, d: x, tags: []uint32{h.Hash()}}}, "corpus-chan-lookalike")
+		}
+	}
 
 	// ---- corpus: one representative history per known finding / repaired defect
 	a, b := pairs[0][0], pairs[0][1]
